@@ -373,7 +373,7 @@ fn composites_cached(path: &'static str) -> &'static Vec<(u16, Vec<u16>)> {
 }
 
 pub fn gen(rng: &mut Rng) -> String {
-    match rng.below(12) {
+    match if std::env::var_os("C09_BIG").is_some() { 11 } else { rng.below(12) } {
         0 | 2 | 3 => {
             let (f, n) = *rng.pick(SUBSET_FONTS);
             let k = (1 + rng.below(6) as usize).min(n as usize);
@@ -419,6 +419,13 @@ pub fn gen(rng: &mut Rng) -> String {
                 _ => rng.below(9) as usize,
             };
             let mut tables: Vec<(u32, Vec<u8>)> = vec![(tag::HEAD, gen_head(rng)), (tag::MAXP, gen_maxp(rng))];
+            if std::env::var_os("C09_BIG").is_some() || rng.chance(1, 6000) {
+                // around the 4096-table limit of the 16-bit search fields: 4094..4100 tables in all
+                let extra = 4092 + rng.below(7) as u32;
+                for k in 0..extra {
+                    tables.push((0x41000000 + k * 3, vec![]));
+                }
+            }
             for _ in 0..ntab {
                 let t = if rng.chance(1, 6) { rng.next() as u32 } else { *rng.pick(POOL) };
                 if t == tag::GLYF || t == tag::LOCA || tables.iter().any(|x| x.0 == t) {
@@ -433,7 +440,8 @@ pub fn gen(rng: &mut Rng) -> String {
                 tables.push((t, d));
             }
             // requested tags: a shuffled subset, sometimes with duplicates, sometimes naming head/maxp
-            let mut tags: Vec<u32> = tables.iter().map(|t| t.0).filter(|_| rng.chance(4, 5)).collect();
+            let big = tables.len() > 4000;
+            let mut tags: Vec<u32> = tables.iter().map(|t| t.0).filter(|_| big || rng.chance(4, 5)).collect();
             for i in (1..tags.len()).rev() {
                 tags.swap(i, rng.below(i as u64 + 1) as usize);
             }
